@@ -98,9 +98,14 @@ func (e *Engine) FuncNames(sub string) []string {
 
 // Verify generates the obligations for one function under its contract.
 func (e *Engine) Verify(name string) (*VC, error) {
-	fn := e.funcs[name]
+	// name may carry a contract variant: "pkg.Func#variant"
+	base := name
+	if i := strings.Index(name, "#"); i >= 0 {
+		base = name[:i]
+	}
+	fn := e.funcs[base]
 	if fn == nil {
-		return nil, fmt.Errorf("function %s not found", name)
+		return nil, fmt.Errorf("function %s not found", base)
 	}
 	if fn.Blocks == nil {
 		return nil, fmt.Errorf("function %s has no body", name)
@@ -109,7 +114,56 @@ func (e *Engine) Verify(name string) (*VC, error) {
 	if spec == nil {
 		spec = &FuncSpec{Name: name, Loops: map[int]*LoopSpec{}, Flags: map[string]string{}}
 	}
+	if spec.Extends != "" {
+		b := e.Spec.Funcs[spec.Extends]
+		if b == nil {
+			return nil, fmt.Errorf("contract %s extends unknown contract %s", name, spec.Extends)
+		}
+		m := *b
+		m.Name = spec.Name
+		m.Requires = append(append([]*Clause{}, b.Requires...), spec.Requires...)
+		m.Ensures = append(append([]*Clause{}, b.Ensures...), spec.Ensures...)
+		m.Lets = append(append([]*Clause{}, b.Lets...), spec.Lets...)
+		m.Loops = map[int]*LoopSpec{}
+		for k, v := range b.Loops {
+			m.Loops[k] = v
+		}
+		for k, v := range spec.Loops {
+			if bl := m.Loops[k]; bl != nil {
+				nl := *bl
+				nl.Invariants = append(append([]*Clause{}, bl.Invariants...), v.Invariants...)
+				if v.Decreases != nil {
+					nl.Decreases = v.Decreases
+				}
+				m.Loops[k] = &nl
+			} else {
+				m.Loops[k] = v
+			}
+		}
+		renum := func(cs []*Clause) []*Clause {
+			out := make([]*Clause, len(cs))
+			for i, c := range cs {
+				cc := *c
+				cc.Idx = i + 1
+				out[i] = &cc
+			}
+			return out
+		}
+		m.Requires, m.Ensures = renum(m.Requires), renum(m.Ensures)
+		for k, l := range m.Loops {
+			nl := *l
+			nl.Invariants = renum(l.Invariants)
+			m.Loops[k] = &nl
+		}
+		m.PanicOK = spec.PanicOK
+		m.MayPanic = spec.MayPanic
+		m.Extends = ""
+		spec = &m
+	}
 	vc := e.NewVC(fn, spec)
+	if base != name {
+		vc.Variant = name[len(base):]
+	}
 	st := &State{H: map[string]string{}, Top: "top_0"}
 	vc.declare("top_0", "Int")
 	for _, s := range HeapSorts {
